@@ -352,6 +352,23 @@ def run_property(mod, ctx, replay_case=None):
     proofs = check_proofs(pid)
     proof_broken = not proofs["ok"]
 
+    # 1b. thorough tier: independent re-check of the compiled theory with coqchk (axioms listed)
+    coqchk_info = None
+    if ctx.thorough and proofs["ok"] and replay_case is None:
+        rc, out = sh(["coqchk", "-o", "-silent", "-R", THEORIES, "Verif", "-R", os.path.join(COQDIR, "gen"), "VerifGen",
+                      "Verif.%s.Property" % pid], cwd=COQDIR, timeout=1800)
+        m = re.search(r"\* Axioms:(.*?)\n\s*\n\* Constants", out, flags=re.S)
+        ax = m.group(1).strip() if m else "unparsed"
+        unsafe = [l for l in ("type-in-type", "unsafe (co)fixpoints", "positivity is assumed")
+                  if not re.search(re.escape(l) + r": <none>", out)]
+        coqchk_info = {"rc": rc, "axioms": ax, "unsafe": unsafe}
+        if rc != 0 or unsafe:
+            proofs["ok"] = False
+            proofs["failed"] = ["coqchk:" + (",".join(unsafe) or "rc=%d" % rc)]
+            proofs["log"] = out[-2000:]
+            proofs["discharged"] = 0
+            proof_broken = True
+
     # 2. correspondence: run real code, evaluate model + spec in Coq
     if replay_case is not None:
         cases = [replay_case]
@@ -461,6 +478,7 @@ def run_property(mod, ctx, replay_case=None):
             "known_findings_seen": sorted(known_seen),
             "input_distribution": hist,
             "tables": table_info,
+            "coqchk": coqchk_info,
             "exhaustive": bool(getattr(mod, "EXHAUSTIVE", False)),
         },
         "assumptions": list(getattr(mod, "ASSUMPTIONS", [])),
